@@ -760,7 +760,11 @@ def scenarios(ctx, root, r, thorough):
                 st_old = gen_state(r, kind, 70)
                 st_new = gen_state(r, kind, 90)
                 if kind == 'flat':
-                    out.append(Scenario(root, kind, 'big', st_new, st_new, cfg))
+                    # well above the 8 KiB write buffer, with removed records in it
+                    st_flat = gen_state(r, kind, 650)
+                    for x in st_flat:
+                        x['s'] = (x['s'] + ' padding') * 2
+                    out.append(Scenario(root, kind, 'big', st_flat, st_flat, cfg))
                 else:
                     out.append(Scenario(root, kind, 'big', st_old, st_new, cfg))
         # aborted flushes (caller raises: rollback through __del__)
